@@ -56,6 +56,7 @@ structure HealSpec (o : Opts) (c : Cond) (r : CResult) : Prop where
 theorem shape_facts (o : Opts) (c : Cond) (h : Healable c = true) :
     ((c.time = .corrupt ∨ (c.time = .missing ∧ c.hasFrames = true)) → (shapeOf o (probe o c)).idx = true) ∧
     (c.vec = .corrupt → (shapeOf o (probe o c)).i3 = true) ∧
+    (c.lex = .corrupt → (shapeOf o (probe o c)).i2 = true) ∧
     ((shapeOf o (probe o c)).fin = false → readToc c = true ∧ c.hdrSum = true ∧ c.hasPending = false) := by
   have hrc : (readToc c || recoverToc c) = true := by
     obtain ⟨hp, hs, ts, ft, t, l, v, w, pe, fr⟩ := c
@@ -65,10 +66,11 @@ theorem shape_facts (o : Opts) (c : Cond) (h : Healable c = true) :
     simp only [Bool.and_eq_true] at h
     exact h.2
   simp only [shapeOf, probe, hrc, if_true, Shape.idx, Shape.fin, Shape.hdr, hw, Bool.true_and]
-  refine ⟨?_, ?_, ?_⟩
+  refine ⟨?_, ?_, ?_, ?_⟩
   · rintro (h1 | ⟨h1, h2⟩)
     · simp [h1]
     · simp [h1, h2]
+  · intro h1; simp [h1]
   · intro h1; simp [h1]
   · intro h1
     simp only [Bool.or_eq_false_iff, Bool.and_eq_false_imp, Bool.not_eq_false', Bool.not_eq_true'] at h1
@@ -81,7 +83,7 @@ theorem heals_cond (o : Opts) (c : Cond) (hd : o.dryRun = false) (h : Healable c
   have hrb := runBody_planOfShape (shapeOf o (probe o c)) (exec0 c)
   have hA := afterBody_spec (shapeOf o (probe o c)) (exec0 c) (exec0_inv h) (exec0_noflags c)
   have hN := afterBody_nofin (shapeOf o (probe o c)) (exec0 c)
-  obtain ⟨hF1, hF2, hF3⟩ := shape_facts o c h
+  obtain ⟨hF1, hF2, hF4, hF3⟩ := shape_facts o c h
   unfold runOpened
   have hpl := planOf_eq o (probe o c)
   rw [hpl]
@@ -92,7 +94,7 @@ theorem heals_cond (o : Opts) (c : Cond) (hd : o.dryRun = false) (h : Healable c
   simp only []
   rw [heF]
   generalize afterBody s (exec0 c) = x at *
-  obtain ⟨hI, hS, hT, hV, hFin⟩ := hA
+  obtain ⟨hI, hS, hT, hV, hL, hFin⟩ := hA
   -- facts about the opened handle
   have hm : (openMem c).moved = c.hasPending := by unfold openMem; split <;> simp_all
   have h0f : c.hasPending = false → (exec0 c).mem.c.hasFrames = c.hasFrames ∧ (exec0 c).mem.c.time = c.time ∧
@@ -105,6 +107,9 @@ theorem heals_cond (o : Opts) (c : Cond) (hd : o.dryRun = false) (h : Healable c
     unfold exec0 openMem
     simp [hp, rewritten]
   have h0v : (exec0 c).mem.c.vec = c.vec := by
+    unfold exec0 openMem healedHdr rewritten
+    split <;> (try split) <;> simp
+  have h0l : (exec0 c).mem.c.lex = c.lex := by
     unfold exec0 openMem healedHdr rewritten
     split <;> (try split) <;> simp
   -- foot / hdrSum at the end
@@ -141,15 +146,19 @@ theorem heals_cond (o : Opts) (c : Cond) (hd : o.dryRun = false) (h : Healable c
     by_cases hc : c.vec = .corrupt
     · exact hV (hF2 hc)
     · exact hS.vecNc (by rw [h0v]; exact hc)
+  have hlex : x.mem.c.lex ≠ .corrupt := by
+    by_cases hc : c.lex = .corrupt
+    · exact hL (hF4 hc)
+    · exact hS.lexNc (by rw [h0l]; exact hc)
   have hver : verify { x.mem.c with hasPending := false, walOk := true } = some true := by
-    simp [verify, footerValid, hfoot.1, hI.toc, htime.1]
+    simp [verify, footerValid, hfoot.1, hI.toc, htime.1, hvec.1, hlex]
   simp only [hver]
   refine ⟨by simp [statusOf, hpl], ?_, ?_, by simp [hm], ?_, ?_, ?_⟩
   · cases (planOfShape s).noop <;> simp [okStatus]
   · have := htime.2.1
     simp only [Good, hI.ptr, hfoot.2, hI.toc, hfoot.1, Bool.true_and, Bool.and_true, beq_self_eq_true, Bool.not_false,
       Bool.and_eq_true, bne_iff_ne, ne_eq, Bool.not_eq_true', Bool.and_eq_false_imp, beq_iff_eq]
-    refine ⟨⟨htime.1, ?_⟩, hvec.1⟩
+    refine ⟨⟨⟨htime.1, ?_⟩, hvec.1⟩, hlex⟩
     intro hmiss
     cases hfr : x.mem.c.hasFrames
     · rfl
@@ -166,14 +175,22 @@ theorem heals_cond (o : Opts) (c : Cond) (hd : o.dryRun = false) (h : Healable c
 
 /-! ### conditions with nothing to repair -/
 
+theorem good_facts {c : Cond} (h : Good c = true) :
+    c.hdrPtr = true ∧ c.hdrSum = true ∧ c.tocSum = true ∧ c.foot = .ok ∧ c.time ≠ .corrupt ∧
+      (c.time == Idx.missing && c.hasFrames) = false ∧ c.vec ≠ .corrupt ∧ c.lex ≠ .corrupt ∧ c.walOk = true ∧
+      c.hasPending = false := by
+  simp only [Good, Bool.and_eq_true, bne_iff_ne, ne_eq, beq_iff_eq, Bool.not_eq_true'] at h
+  obtain ⟨⟨⟨⟨⟨⟨⟨⟨⟨h1, h2⟩, h3⟩, h4⟩, h5⟩, h6⟩, h7⟩, h8⟩, h9⟩, h10⟩ := h
+  exact ⟨h1, h2, h3, h4, h5, h6, h7, h8, h9, h10⟩
+
 theorem good_healable {c : Cond} (h : Good c = true) : Healable c = true := by
-  simp only [Good, Bool.and_eq_true] at h
-  simp [Healable, h.1.1.1.1.1.1.1.1, h.1.1.1.1.1.1.2, h.1.2]
+  obtain ⟨h1, _, h3, _, _, _, _, _, h9, _⟩ := good_facts h
+  simp [Healable, h1, h3, h9]
 
 theorem good_set_frames {c : Cond} (h : Good c = true) (ht : c.time = .ok) (b : Bool) :
     Good { c with hasFrames := b } = true := by
-  simp only [Good, Bool.and_eq_true] at h ⊢
-  simp_all
+  obtain ⟨h1, h2, h3, h4, h5, h6, h7, h8, h9, h10⟩ := good_facts h
+  simp [Good, h1, h2, h3, h4, ht, h7, h8, h9, h10]
 
 /-- a default-options run on a condition with nothing to repair: Clean, nothing changes -/
 theorem good_default {c : Cond} (h : Good c = true) :
@@ -184,10 +201,9 @@ theorem good_default {c : Cond} (h : Good c = true) :
 
 theorem good_opens_verifies {c : Cond} (h : Good c = true) : opens c = true ∧ verifyPassed c = true := by
   have ho := tryOpen_healable (good_healable h)
-  simp only [Good, Bool.and_eq_true, bne_iff_ne, ne_eq, beq_iff_eq, Bool.not_eq_true'] at h
-  obtain ⟨⟨⟨⟨⟨⟨⟨⟨h1, h2⟩, h3⟩, h4⟩, h5⟩, h6⟩, h7⟩, h8⟩, h9⟩ := h
+  obtain ⟨h1, h2, h3, h4, h5, h6, h7, h8, h9, h10⟩ := good_facts h
   refine ⟨by simp [opens, ho], ?_⟩
-  simp [verifyPassed, verify, footerValid, h3, h4, h5, h8, h9]
+  simp [verifyPassed, verify, footerValid, h3, h4, h5, h7, h8, h9, h10]
 
 theorem planOfShape_noop (s : Shape) : (planOfShape s).noop = !s.fin := by
   obtain ⟨h1, h2, wp, vac, i1, i2, i3, rc⟩ := s
@@ -196,17 +212,18 @@ theorem planOfShape_noop (s : Shape) : (planOfShape s).noop = !s.fin := by
 /-- on a condition with nothing to repair the plan is a no-op exactly when no work is forced -/
 theorem good_noop (o : Opts) {c : Cond} (h : Good c = true) : (planOf o (probe o c)).noop = !o.forced := by
   rw [planOf_eq, planOfShape_noop]
-  simp only [Good, Bool.and_eq_true, bne_iff_ne, ne_eq, beq_iff_eq, Bool.not_eq_true'] at h
-  obtain ⟨⟨⟨⟨⟨⟨⟨⟨h1, h2⟩, h3⟩, h4⟩, h5⟩, h6⟩, h7⟩, h8⟩, h9⟩ := h
+  obtain ⟨h1, h2, h3, h4, h5, h6, h7, h8, h9, h10⟩ := good_facts h
   have hrt : readToc c = true := by simp [readToc, footerValid, h1, h4]
   obtain ⟨rt, rl, rv, va, dr⟩ := o
-  simp only [shapeOf, probe, hrt, Bool.true_or, if_true, Shape.fin, Shape.hdr, Shape.idx, Opts.forced, h1, h2, h8, h9,
-    Bool.not_true, Bool.and_false, Bool.false_and, Bool.false_or, Bool.and_true, Bool.true_and]
+  simp only [shapeOf, probe, hrt, Bool.true_or, if_true, Shape.fin, Shape.hdr, Shape.idx, Opts.forced, h1, h2, h9, h10,
+    Bool.not_true, Bool.and_false, Bool.false_or]
   have hnt : (c.time == Idx.corrupt || c.time == Idx.missing && c.hasFrames) = false := by
     cases ht : c.time <;> simp_all
   have hnv : (c.vec == Idx.corrupt) = false := by
     cases hv : c.vec <;> simp_all
-  simp only [hnt, hnv, Bool.false_or]
+  have hnl : (c.lex == Idx.corrupt) = false := by
+    cases hv : c.lex <;> simp_all
+  simp only [hnt, hnv, hnl, Bool.false_or]
   cases rt <;> cases rl <;> cases rv <;> cases va <;> cases (c.lex == Idx.missing) <;> cases (c.vec == Idx.missing) <;> rfl
 
 /-! ### the other outcomes -/
@@ -303,9 +320,7 @@ theorem result_cond_good {o : Opts} {c : Cond} {r : CResult} (spec : HealSpec o 
     Good { r.c with hasPending := !(applyData r.act (frames, pending)).2.isEmpty,
                     hasFrames := !(applyData r.act (frames, pending)).1.isEmpty } = true := by
   have hg := spec.good
-  have hpe : r.c.hasPending = false := by
-    simp only [Good, Bool.and_eq_true, Bool.not_eq_true'] at hg
-    exact hg.2
+  have hpe : r.c.hasPending = false := (good_facts hg).2.2.2.2.2.2.2.2.2
   cases hp : c.hasPending
   · have ha : r.act = .keep := by rw [spec.act, hp]; rfl
     have h1 : (!pending.isEmpty) = r.c.hasPending := by rw [← hc, hp, hpe]
@@ -345,10 +360,7 @@ theorem good_second_run (o : Opts) (f1 : File) (hd : o.dryRun = false) (hg : Goo
     statusOf (doctor false o f1).out = some (if o.forced then .healed else .clean) ∧
     Healed (doctor false o f1) ∧
     logical (doctor false o f1).file = logical f1 := by
-  have hw : f1.walOk = true := by
-    have := hg
-    simp only [Good, Bool.and_eq_true] at this
-    exact this.1.2
+  have hw : f1.walOk = true := (good_facts hg).2.2.2.2.2.2.2.2.1
   refine ⟨?_, ?_, C21_heals o f1 hd (good_healable hg), C21_preserve false o f1 hw⟩
   · unfold doctor
     rw [good_default hg]
